@@ -13,6 +13,8 @@ from dataclasses import dataclass, field
 from typing import Callable, Dict, Iterable, Iterator, List, Optional, Sequence, Set, Tuple
 
 
+from .normalize import normalize_tree  # noqa: E402
+
 class AnalysisError(Exception):
     """The analysis cannot give a verdict (vanished anchor, unsupported construct, floor)."""
 
@@ -88,6 +90,9 @@ def set_parents(tree: ast.AST):
 _PARSE_CACHE: Dict[Tuple[str, int, int], Tuple[str, ast.Module]] = {}
 
 
+NORMALIZE = os.environ.get("HIPPOSA_NO_NORMALIZE") is None
+
+
 class Repo:
     """All python modules under <root>/<subdirs>; overlay maps rel path -> replacement source."""
 
@@ -132,6 +137,8 @@ class Repo:
                 tree = ast.parse(src, filename=rel)
             except SyntaxError as e:
                 raise AnalysisError(f"cannot parse overlay {rel}: {e}")
+            if NORMALIZE:
+                normalize_tree(tree)
             set_parents(tree)
         else:
             st = os.stat(path)
@@ -144,6 +151,8 @@ class Repo:
                     tree = ast.parse(src, filename=rel)
                 except SyntaxError as e:
                     raise AnalysisError(f"cannot parse {rel}: {e}")
+                if NORMALIZE:
+                    normalize_tree(tree)
                 set_parents(tree)
                 _PARSE_CACHE[key] = (src, tree)
             else:
@@ -466,7 +475,78 @@ def always_exits(stmts: Sequence[ast.stmt]) -> bool:
         return all(always_exits(b) for b in bodies)
     if isinstance(last, (ast.With, ast.AsyncWith)):
         return always_exits(last.body)
+    if isinstance(last, ast.Match):
+        irrefutable = any(c.guard is None and _pattern_irrefutable(c.pattern) for c in last.cases)
+        return irrefutable and all(always_exits(c.body) for c in last.cases)
     return False
+
+
+def _pattern_irrefutable(pat) -> bool:
+    if isinstance(pat, ast.MatchAs):
+        return pat.pattern is None or _pattern_irrefutable(pat.pattern)
+    if isinstance(pat, ast.MatchOr):
+        return any(_pattern_irrefutable(x) for x in pat.patterns)
+    return False
+
+
+def _pattern_test(subject: ast.expr, pat) -> Optional[ast.expr]:
+    """Expression equivalent to `subject matches pat` for the pattern kinds that have one (value, singleton, bare
+    class, or-patterns of those, `as` captures of those); None when the pattern has no simple test."""
+    if isinstance(pat, ast.MatchValue):
+        return ast.Compare(left=subject, ops=[ast.Eq()], comparators=[pat.value])
+    if isinstance(pat, ast.MatchSingleton):
+        return ast.Compare(left=subject, ops=[ast.Is()], comparators=[ast.Constant(value=pat.value)])
+    if isinstance(pat, ast.MatchClass) and not pat.patterns and not pat.kwd_patterns:
+        return ast.Call(func=ast.Name(id="isinstance", ctx=ast.Load()), args=[subject, pat.cls], keywords=[])
+    if isinstance(pat, ast.MatchAs) and pat.pattern is not None:
+        return _pattern_test(subject, pat.pattern)
+    if isinstance(pat, ast.MatchOr):
+        parts = [_pattern_test(subject, x) for x in pat.patterns]
+        if all(x is not None for x in parts):
+            return ast.BoolOp(op=ast.Or(), values=parts)
+    return None
+
+
+def match_as_if(m: ast.Match) -> Optional[ast.If]:
+    """The if/elif/else chain equivalent to a match statement whose patterns all have a simple test (value,
+    singleton, bare class, or-patterns, trailing wildcard); None when some pattern binds or destructures."""
+    chain: List[Tuple[Optional[ast.expr], List[ast.stmt]]] = []
+    for c in m.cases:
+        if c.guard is None and isinstance(c.pattern, ast.MatchAs) and c.pattern.pattern is None and c.pattern.name is None:
+            chain.append((None, c.body))
+            break
+        t = _pattern_test(m.subject, c.pattern)
+        if t is None or (isinstance(c.pattern, ast.MatchAs) and c.pattern.name is not None):
+            return None
+        if c.guard is not None:
+            t = ast.BoolOp(op=ast.And(), values=[t, c.guard])
+        chain.append((t, c.body))
+    node: List[ast.stmt] = []
+    for t, body in reversed(chain):
+        if t is None:
+            node = list(body)
+        else:
+            node = [ast.copy_location(ast.If(test=t, body=list(body), orelse=node), m)]
+    if len(node) == 1 and isinstance(node[0], ast.If):
+        return node[0]
+    return None
+
+
+def match_case_conds(m: ast.Match, case: ast.match_case) -> List["Cond"]:
+    """Conditions that hold inside `case` of `m`: its own pattern test and guard, and the failure of every
+    earlier unguarded case that has a simple test."""
+    out: List[Cond] = []
+    for c in m.cases:
+        t = _pattern_test(m.subject, c.pattern)
+        if c is case:
+            if t is not None:
+                out.append(Cond(t, True, "if"))
+            if c.guard is not None:
+                out.append(Cond(c.guard, True, "if"))
+            break
+        if t is not None and c.guard is None:
+            out.append(Cond(t, False, "if"))
+    return out
 
 
 def _block_of(stmt) -> Tuple[Optional[List[ast.stmt]], Optional[str]]:
@@ -518,6 +598,13 @@ def conditions(node: ast.AST, stop: Optional[ast.AST] = None) -> List[Cond]:
         elif isinstance(p, ast.While):
             if any(cur is s for s in p.body):
                 out.append(Cond(p.test, True, "while"))
+        elif isinstance(p, ast.match_case):
+            m = parent(p)
+            if isinstance(m, ast.Match) and (any(cur is s for s in p.body) or cur is p.guard):
+                cs = match_case_conds(m, p)
+                if cur is p.guard:
+                    cs = [c for c in cs if c.test is not p.guard]
+                out.extend(cs)
         elif isinstance(p, ast.IfExp):
             if cur is p.body:
                 out.append(Cond(p.test, True, "ifexp"))
@@ -551,6 +638,15 @@ def conditions(node: ast.AST, stop: Optional[ast.AST] = None) -> List[Cond]:
                             out.append(Cond(s.test, True, "early-exit"))
                     elif isinstance(s, ast.Assert):
                         out.append(Cond(s.test, True, "assert"))
+                    elif isinstance(s, ast.Match):
+                        # cases that cannot complete normally: falling through means they did not match
+                        # (only the leading run of such cases: a later one may never have been tried)
+                        for c in s.cases:
+                            if not always_exits(c.body):
+                                break
+                            t = _pattern_test(s.subject, c.pattern)
+                            if t is not None and c.guard is None:
+                                out.append(Cond(t, False, "early-exit"))
         if isinstance(p, FUNC_TYPES + (ast.Lambda,)) and stop is None:
             break
         cur = p
@@ -700,6 +796,8 @@ def stores(node: ast.AST, into_defs=True) -> List[Store]:
         elif isinstance(n, (ast.For, ast.AsyncFor)):
             for t in _targets(n.target):
                 _add_store(out, t, n, "assign", None)
+        elif isinstance(n, ast.NamedExpr):
+            _add_store(out, n.target, n, "assign", n.value)
         elif isinstance(n, ast.Call) and isinstance(n.func, ast.Attribute) and n.func.attr in MUTATORS:
             p = ap(n.func.value)
             if p:
